@@ -70,7 +70,7 @@ Proof. exact iso_errors_nonempty. Qed.
 Print Assumptions C07_errors_nonempty.
 
 (* ---- (ii) the call-site table, recomputed over the regenerated list on every run *)
-Theorem C07_sites_agree : map site_key model_sites = map gen_key SetExtGen.sites.
+Theorem C07_sites_agree : sites_same_set = true.
 Proof. exact sites_agree. Qed.
 Print Assumptions C07_sites_agree.
 
@@ -125,7 +125,7 @@ Proof. exact service_accepted. Qed.
 Print Assumptions C07_service_accepted_partial.
 
 (* every explicit panic( call in the anchored files is a model Panic site or a reviewed printer-side site *)
-Theorem C07_panic_sites_agree : map fst model_panic_sites = PanicGen.sites.
+Theorem C07_panic_sites_agree : panic_sites_same_set = true.
 Proof. exact panic_sites_agree. Qed.
 Print Assumptions C07_panic_sites_agree.
 
